@@ -431,6 +431,19 @@ class CallMixin:
             if not any(is_sym(a) or contains_sym(a) for a in list(args) + list(kwargs.values())):
                 return cls(*args, **kwargs)
             raise Unsupported(f'construction of {cls.__name__} with symbolic arguments')
+        if issubclass(cls, tuple) and hasattr(cls, '_fields'):
+            # typing.NamedTuple: an immutable record of its fields
+            flds = list(cls._fields)
+            vals = list(args) + [None] * (len(flds) - len(args))
+            for k_, v_ in kwargs.items():
+                vals[flds.index(k_)] = v_
+            for i_, f_ in enumerate(flds):
+                if i_ >= len(args) and f_ not in kwargs:
+                    if f_ in getattr(cls, '_field_defaults', {}):
+                        vals[i_] = cls._field_defaults[f_]
+                    else:
+                        raise PyRaise(TypeError, (f'missing {f_}',), node, implicit=True)
+            return VStruct(None, cls, dict(zip(flds, vals)))
         d = _mro_dict(cls)
         init = d.get('__init__')
         if dataclasses.is_dataclass(cls) and (init is None or init.__qualname__.endswith('.__init__') and '__create_fn__' in getattr(init, '__qualname__', '') or getattr(init, '__module__', '') != cls.__module__ or not self._has_src(init)):
@@ -612,6 +625,8 @@ class CallMixin:
                     return self.pure_block((s.body if c else s.orelse) + rest, fr)
                 f1 = Frame(None, dict(fr.env), fr.module, fr.parent)
                 f2 = Frame(None, dict(fr.env), fr.module, fr.parent)
+                f1.extra = fr.extra
+                f2.extra = fr.extra
                 self._guards.append(c)
                 try:
                     a = self.pure_block(s.body + rest, f1)
@@ -661,6 +676,12 @@ class CallMixin:
         names['EMPTY'] = ()
         names['old'] = Builtin('old', lambda a, k, n, f: a[0])
         names['rev'] = Builtin('rev', self.b_rev)
+        names['rangeset'] = Builtin('rangeset', lambda a, k, n, f: self.b_set([self.b_range(a, {}, n, f)], {}, n, f) if any(is_sym(x) for x in a) else VBox('set', self._const_intset(range(*a)), api.Int))
+        names['setadd'] = Builtin('setadd', self.b_setadd)
+        names['emptyset'] = Builtin('emptyset', lambda a, k, n, f: VBox('set', None))
+        names['re_match'] = Builtin('re_match', lambda a, k, n, f: self.re_syms(a[0], a[2] if len(a) > 2 else 'match')[1](self.zs.lift(a[1], STR)))
+        names['re_group'] = Builtin('re_group', lambda a, k, n, f: self.re_group_syms(a[0], a[3] if len(a) > 3 else 'match', a[1])[0](self.zs.lift(a[2], STR)))
+        names['re_group_none'] = Builtin('re_group_none', lambda a, k, n, f: self.re_group_syms(a[0], a[3] if len(a) > 3 else 'match', a[1])[1](self.zs.lift(a[2], STR)))
         for om, (argsorts, ret) in (getattr(c, 'opaque', None) or {}).items():
             names['obj_' + om] = Builtin('obj_' + om, lambda a, k, n, f, om=om, argsorts=argsorts, ret=ret: self.opaque_fn(om, argsorts, ret, a))
         names['seq_eq_from'] = Builtin('seq_eq_from', self.b_seq_eq_from)
@@ -672,6 +693,22 @@ class CallMixin:
         f = self.ufun(f'obj_{om}', zs.zsort(api.Obj), *[zs.zsort(s_) for s_ in argsorts], zs.zsort(ret))
         a2 = [zs.lift(self.unwrap_term(x), s_) for x, s_ in zip(a, [zs.zsort(api.Obj)] + [zs.zsort(s_) for s_ in argsorts])]
         return f(*a2)
+
+    def _const_intset(self, xs):
+        t = z3.K(INT, False)
+        for x in xs:
+            t = z3.Store(t, x, True)
+        return t
+
+    def b_setadd(self, a, k, n, f):
+        sbox, x = a[0], a[1]
+        if isinstance(sbox, VOpt):
+            sbox = sbox.val
+        t = sbox.term
+        xs = x if z3.is_expr(x) else self.zs.lift(x, INT if isinstance(x, int) else STR)
+        if t is None:
+            t = z3.K(xs.sort(), False)
+        return VBox('set', z3.Store(t, xs, True), sbox.esort)
 
     def b_rev(self, a, k, n, f):
         x = self.seqterm(a[0])
